@@ -417,6 +417,11 @@ def plan(case: dict[str, Any], routes: Routes) -> list[dict[str, Any]]:
             ]
 
         add(curve_fn[0], "rect", "value", 1, lambda: sum(curve_fn[1](e, 0, 1) for e in edges(t)))
+        # a NON-linear parametrisation of the same straight edges whose parameter runs backwards: s = (1 - t)^2 with t
+        # from 1 down to 0 traverses each edge once in the same direction (ds/dt < 0 on the range, limits swapped)
+        # (flux only: the line element |dl| enters there; the circulation integrand has no such factor)
+        if thm == "green":
+            add(curve_fn[0], "rect", "reparam", 1, lambda: sum(curve_fn[1](e, 1, 0) for e in edges((1 - t)**2)))
         if variant:
             add(curve_fn[0], "rect", "reparam", 1,
                 lambda: sum(curve_fn[1](e, -d / c, (1 - d) / c) for e in edges(c * t + d)))
